@@ -2,6 +2,7 @@ package lossy
 
 import (
 	"encoding/binary"
+	"fmt"
 	"sync"
 
 	"github.com/deepteams/webp/internal/bitio"
@@ -38,6 +39,19 @@ func (enc *VP8Encoder) emitFrame() ([]byte, error) {
 	}
 	enc.stats.HeaderSize = 10 + len(part0) // frame tag + pic header + partition 0
 	enc.stats.Residuals = tokenSize
+
+	// The frame tag stores the size of partition 0 in 19 bits and the
+	// partition table stores the size of every token partition but the last
+	// in 24 bits. A larger partition cannot be described, and writing its
+	// truncated size would produce a stream that no decoder can read.
+	if len(part0) >= 1<<19 {
+		return nil, fmt.Errorf("vp8: partition 0 too large (%d bytes, max %d)", len(part0), 1<<19-1)
+	}
+	for i := 0; i < len(tokenParts)-1; i++ {
+		if len(tokenParts[i]) >= 1<<24 {
+			return nil, fmt.Errorf("vp8: token partition %d too large (%d bytes, max %d)", i, len(tokenParts[i]), 1<<24-1)
+		}
+	}
 
 	// Frame tag (3 bytes) + picture header (7 bytes for keyframe).
 	return enc.assembleFrame(part0, tokenParts), nil
